@@ -30,7 +30,7 @@ pub fn strategy_for(tier: Tier) -> BoxedStrategy<Case> {
         .prop_map(move |(issue, ch, kb, ch2, second_claims, choices)| {
             let selection = selection_for(&issue, &ch, SelOpts { allow_null: false });
             let reselect = selection_for(&issue, &ch2, SelOpts { allow_null: true });
-            let kb = if issue.holder.is_some() { kb.map(|(aud, nonce)| KbArgs { aud, nonce, key: issue.holder }) } else { None };
+            let kb = if issue.holder.is_some() { kb.map(|(aud, nonce)| KbArgs { default_alg: nonce.chars().count() % 2 == 1, aud, nonce, key: issue.holder }) } else { None };
             C10Case { issue, selection, kb, reselect, second_claims, choices, sample }
         })
         .boxed()
